@@ -137,7 +137,7 @@ theorem Chan.deliver_next_promote (c : Chan) (lt : IdLt) (w : Wire) (eph now : N
     (hk : s'.rKey = some k) (hck : c.checkKey k = true) :
     c.deliver lt w eph now =
     ({ c with remoteKey := some k, lastReceived := now, remoteTimestamp := s'.helloTime, prev := c.cur,
-              cur := some ⟨id, s'⟩, next := none, rekeyPending := c.rekeyPending || s'.isInit },
+              cur := some ⟨id, s'⟩, next := none, rekeyPending := c.rekeyPending || s'.isInit, waiting := 0 },
      { sent := out }) := by
   have hck' : Chan.checkKey { c with next := some ⟨id, s'⟩ } k = true := hck
   unfold Chan.deliver
@@ -223,7 +223,8 @@ theorem resp_step2 (B : Chan) (lt : IdLt) (kA : KeyId) (eI t eR exp eph now : Na
     Chan.deliver { B with next := some ⟨.initHello eI (helloOf kA t), respS1 B.key eR exp eI (helloOf kA t)⟩ } lt
       (.initDone eI eR (helloOf kA t) (.cb2 kA eI eR (helloOf kA t) B.key (.cb1 B.key eI (helloOf kA t)))) eph now =
     ({ B with remoteKey := some kA, lastReceived := now, remoteTimestamp := t, prev := B.cur,
-              cur := some ⟨.initHello eI (helloOf kA t), respS3 B.key eR exp eI (helloOf kA t)⟩, next := none },
+              cur := some ⟨.initHello eI (helloOf kA t), respS3 B.key eR exp eI (helloOf kA t)⟩, next := none,
+              waiting := 0 },
      { sent := some (.respDone eI eR (helloOf kA t)) }) := by
   refine (Chan.deliver_next_promote
     { B with next := some ⟨.initHello eI (helloOf kA t), respS1 B.key eR exp eI (helloOf kA t)⟩ } lt
@@ -242,38 +243,56 @@ theorem resp_step2 (B : Chan) (lt : IdLt) (kA : KeyId) (eI t eR exp eph now : Na
 /-! ### the initiator side -/
 
 /-- the initiating channel between its rekey timer and the RespHello -/
-def initChan (kA : KeyId) (accA : KeyId → Bool) (ra ka : Nat) (nx : Option Entry) : Chan :=
-  { key := kA, accept := accA, rejectAfter := ra, keepAlive := ka, next := nx, rekeyPending := true, hsPending := true }
+def initChan (kA : KeyId) (accA : KeyId → Bool) (ra ka ht : Nat) (nx : Option Entry) : Chan :=
+  { key := kA, accept := accA, rejectAfter := ra, keepAlive := ka, hsTimeout := ht, next := nx, rekeyPending := true, hsPending := true }
 
 /-- the initiating channel once established -/
-def initDoneChan (kA : KeyId) (accA : KeyId → Bool) (ra ka eI t eR : Nat) (rk : KeyId) (lr : Nat) : Chan :=
-  { key := kA, accept := accA, rejectAfter := ra, keepAlive := ka,
+def initDoneChan (kA : KeyId) (accA : KeyId → Bool) (ra ka ht eI t eR : Nat) (rk : KeyId) (lr : Nat) : Chan :=
+  { key := kA, accept := accA, rejectAfter := ra, keepAlive := ka, hsTimeout := ht,
     cur := some ⟨.initHello eI (helloOf kA t), initS4 kA eI t ra eR rk⟩,
     remoteKey := some rk, remoteTimestamp := t, lastReceived := lr, rekeyPending := true, hsPending := true }
 
-theorem init_step0 (kA : KeyId) (accA : KeyId → Bool) (ra ka : Nat) (lt : IdLt) (eI t : Nat) :
-    (Chan.fresh kA accA ra ka).onRekey lt eI t =
-      initChan kA accA ra ka (some ⟨.initHello eI (helloOf kA t), Sess.new true kA eI t ra⟩) := rfl
+theorem init_step0 (kA : KeyId) (accA : KeyId → Bool) (ra ka ht : Nat) (lt : IdLt) (eI t : Nat) :
+    (Chan.fresh kA accA ra ka ht).onRekey lt eI t =
+      initChan kA accA ra ka ht (some ⟨.initHello eI (helloOf kA t), Sess.new true kA eI t ra⟩) := rfl
 
-theorem init_onHandshake (kA : KeyId) (accA : KeyId → Bool) (ra ka eI t : Nat) :
-    (initChan kA accA ra ka (some ⟨.initHello eI (helloOf kA t), Sess.new true kA eI t ra⟩)).onHandshake =
-    (initChan kA accA ra ka (some ⟨.initHello eI (helloOf kA t), Sess.new true kA eI t ra⟩),
-     [.initHello eI (helloOf kA t)]) := rfl
+/-- at the time the initiator session was created it is neither expired nor too old -/
+theorem init_expire (kA : KeyId) (accA : KeyId → Bool) (ra ka ht eI t : Nat) :
+    (initChan kA accA ra ka ht (some ⟨.initHello eI (helloOf kA t), Sess.new true kA eI t ra⟩)).expire t =
+    initChan kA accA ra ka ht (some ⟨.initHello eI (helloOf kA t), Sess.new true kA eI t ra⟩) := by
+  have h : ¬ (t + ra < t ∨ t - (t + ra - ra) > ht) := by omega
+  rw [Chan.expire_eq]
+  have h1 : ∀ c : Chan, c.prev = none → c.expire1 t = c := by
+    intro c hc; unfold Chan.expire1; rw [hc]
+  have h2 : ∀ c : Chan, c.cur = none → c.expire2 t = c := by
+    intro c hc; unfold Chan.expire2; rw [hc]
+  rw [h1 _ rfl, h2 _ rfl]
+  unfold Chan.expire3
+  simp only [initChan, Sess.new]
+  rw [if_neg h]
 
-theorem init_step1 (kA : KeyId) (accA : KeyId → Bool) (ra ka : Nat) (lt : IdLt) (eI t eR : Nat) (rk : KeyId)
+theorem init_onHandshakeAt (kA : KeyId) (accA : KeyId → Bool) (ra ka ht eI t : Nat) :
+    (initChan kA accA ra ka ht (some ⟨.initHello eI (helloOf kA t), Sess.new true kA eI t ra⟩)).onHandshakeAt t =
+    (initChan kA accA ra ka ht (some ⟨.initHello eI (helloOf kA t), Sess.new true kA eI t ra⟩),
+     [.initHello eI (helloOf kA t)], false) := by
+  unfold Chan.onHandshakeAt
+  simp only [init_expire]
+  rfl
+
+theorem init_step1 (kA : KeyId) (accA : KeyId → Bool) (ra ka ht : Nat) (lt : IdLt) (eI t eR : Nat) (rk : KeyId)
     (eph now : Nat) (hn : now ≤ t + ra) :
-    (initChan kA accA ra ka (some ⟨.initHello eI (helloOf kA t), Sess.new true kA eI t ra⟩)).deliver lt
+    (initChan kA accA ra ka ht (some ⟨.initHello eI (helloOf kA t), Sess.new true kA eI t ra⟩)).deliver lt
       (.respHello eR eI (helloOf kA t) rk (.cb1 rk eI (helloOf kA t))) eph now =
-    (initChan kA accA ra ka (some ⟨.initHello eI (helloOf kA t), initS2 kA eI t ra eR rk⟩),
+    (initChan kA accA ra ka ht (some ⟨.initHello eI (helloOf kA t), initS2 kA eI t ra eR rk⟩),
      { sent := some (.initDone eI eR (helloOf kA t) (.cb2 kA eI eR (helloOf kA t) rk (.cb1 rk eI (helloOf kA t)))) }) :=
   Chan.deliver_next_hs _ lt _ eph now _ _ _ _ (Transp.none _ _) (Transp.none _ _) rfl rfl
     (Sess.init_deliver_respHello kA eI t ra eR rk now hn) rfl
 
-theorem init_step2 (kA : KeyId) (accA : KeyId → Bool) (ra ka : Nat) (lt : IdLt) (eI t eR : Nat) (rk : KeyId)
+theorem init_step2 (kA : KeyId) (accA : KeyId → Bool) (ra ka ht : Nat) (lt : IdLt) (eI t eR : Nat) (rk : KeyId)
     (eph now : Nat) (hn : now ≤ t + ra) (hacc : accA rk = true) :
-    (initChan kA accA ra ka (some ⟨.initHello eI (helloOf kA t), initS2 kA eI t ra eR rk⟩)).deliver lt
+    (initChan kA accA ra ka ht (some ⟨.initHello eI (helloOf kA t), initS2 kA eI t ra eR rk⟩)).deliver lt
       (.respDone eI eR (helloOf kA t)) eph now =
-    (initDoneChan kA accA ra ka eI t eR rk now, {}) :=
+    (initDoneChan kA accA ra ka ht eI t eR rk now, {}) :=
   Chan.deliver_next_promote _ lt _ eph now _ _ _ none rk (Transp.none _ _) (Transp.none _ _) rfl rfl
     (Sess.init_deliver_respDone kA eI t ra eR rk now hn) rfl rfl rfl hacc
 
@@ -283,32 +302,32 @@ theorem init_step2 (kA : KeyId) (accA : KeyId → Bool) (ra ka : Nat) (lt : IdLt
 def respDoneChan (B : Chan) (kA : KeyId) (eI t eR : Nat) : Chan :=
   { B with remoteKey := some kA, lastReceived := t + 2, remoteTimestamp := t, prev := B.cur,
            cur := some ⟨.initHello eI (helloOf kA t), respS3 B.key eR (t + 1 + B.rejectAfter) eI (helloOf kA t)⟩,
-           next := none }
+           next := none, waiting := 0 }
 
 set_option linter.unusedSimpArgs false in
-theorem reliableSuffix_spec (kA : KeyId) (accA : KeyId → Bool) (ra ka : Nat) (lt : IdLt) (eI t eph : Nat) (B : Chan)
+theorem reliableSuffix_spec (kA : KeyId) (accA : KeyId → Bool) (ra ka ht : Nat) (lt : IdLt) (eI t eph : Nat) (B : Chan)
     (hB : RespPre B kA eI t) (hra : 2 ≤ ra) (hrb : 1 ≤ B.rejectAfter) (hacc : accA B.key = true) :
-    reliableSuffix lt ((Chan.fresh kA accA ra ka).onRekey lt eI t) B eph t =
-    (initDoneChan kA accA ra ka eI t (eph + 1) B.key (t + 2), respDoneChan B kA eI t (eph + 1)) := by
+    reliableSuffix lt ((Chan.fresh kA accA ra ka ht).onRekey lt eI t) B eph t =
+    (initDoneChan kA accA ra ka ht eI t (eph + 1) B.key (t + 2), respDoneChan B kA eI t (eph + 1)) := by
   unfold reliableSuffix
-  rw [init_step0, init_onHandshake]
+  rw [init_step0, init_onHandshakeAt]
   simp only [exchangeRound, Chan.deliverAll, List.foldl, List.nil_append]
   rw [resp_step1 B lt kA eI t (eph + 1) (t + 1) hB]
   simp only [Option.toList, List.foldl, List.nil_append]
-  rw [init_step1 kA accA ra ka lt eI t (eph + 1) B.key eph (t + 1) (by omega)]
+  rw [init_step1 kA accA ra ka ht lt eI t (eph + 1) B.key eph (t + 1) (by omega)]
   simp only [Option.toList, List.foldl, List.nil_append]
   rw [resp_step2 B lt kA eI t (eph + 1) (t + 1 + B.rejectAfter) (eph + 3) (t + 2) hB (by omega)]
   simp only [Option.toList, List.foldl, List.nil_append]
-  rw [init_step2 kA accA ra ka lt eI t (eph + 1) B.key (eph + 2) (t + 2) (by omega) hacc]
+  rw [init_step2 kA accA ra ka ht lt eI t (eph + 1) B.key (eph + 2) (t + 2) (by omega) hacc]
   rfl
 
-theorem established_spec (kA : KeyId) (accA : KeyId → Bool) (ra ka : Nat) (lt : IdLt) (eI t eR : Nat) (B : Chan)
+theorem established_spec (kA : KeyId) (accA : KeyId → Bool) (ra ka ht : Nat) (lt : IdLt) (eI t eR : Nat) (B : Chan)
     (p : Bytes) (hB : RespPre B kA eI t) (hra : 4 ≤ ra) (hka : 2 ≤ ka) (hrb : 3 ≤ B.rejectAfter) :
-    Established lt (initDoneChan kA accA ra ka eI t eR B.key (t + 2)) (respDoneChan B kA eI t eR) (t + 4) p := by
-  refine ⟨rfl, rfl, { initDoneChan kA accA ra ka eI t eR B.key (t + 2) with
+    Established lt (initDoneChan kA accA ra ka ht eI t eR B.key (t + 2)) (respDoneChan B kA eI t eR) (t + 4) p := by
+  refine ⟨rfl, rfl, { initDoneChan kA accA ra ka ht eI t eR B.key (t + 2) with
       cur := some ⟨.initHello eI (helloOf kA t), ((initS4 kA eI t ra eR B.key).send p (t + 4)).1⟩ },
     .data eI eR (helloOf kA t) .i2r 16 p, ?_, ?_⟩
-  · rw [Chan.send_cur (initDoneChan kA accA ra ka eI t eR B.key (t + 2)) p (t + 4) (.initHello eI (helloOf kA t))
+  · rw [Chan.send_cur (initDoneChan kA accA ra ka ht eI t eR B.key (t + 2)) p (t + 4) (.initHello eI (helloOf kA t))
       (initS4 kA eI t ra eR B.key) rfl rfl rfl (by show t + 4 ≤ t + ra; omega)
       (by show t + 4 - (t + 2) ≤ ka; omega)]
     rw [Sess.init_send kA eI t ra eR B.key p (t + 4) (by omega)]
@@ -321,30 +340,30 @@ theorem established_spec (kA : KeyId) (accA : KeyId → Bool) (ra ka : Nat) (lt 
 
 /-! ### the scenarios -/
 
-theorem RespPre.fresh (kA kB : KeyId) (ra ka eI t : Nat) :
-    RespPre (Chan.fresh kB (fun k => k == kA) ra ka) kA eI t :=
+theorem RespPre.fresh (kA kB : KeyId) (ra ka ht eI t : Nat) :
+    RespPre (Chan.fresh kB (fun k => k == kA) ra ka ht) kA eI t :=
   ⟨rfl, fun _ h => (by cases h), fun _ h => (by cases h), Nat.zero_le _, by simp [Chan.checkKey, Chan.fresh]⟩
 
 /-- three reliable round trips against any admissible responder state establish the connection -/
-theorem established_run (kA : KeyId) (accA : KeyId → Bool) (ra ka : Nat) (lt : IdLt) (eI t eph : Nat) (B : Chan)
+theorem established_run (kA : KeyId) (accA : KeyId → Bool) (ra ka ht : Nat) (lt : IdLt) (eI t eph : Nat) (B : Chan)
     (p : Bytes) (now : Nat) (hB : RespPre B kA eI t) (hra : 4 ≤ ra) (hka : 2 ≤ ka) (hrb : 3 ≤ B.rejectAfter)
     (hacc : accA B.key = true) (hnow : now = t + 4) :
-    Established lt (reliableSuffix lt ((Chan.fresh kA accA ra ka).onRekey lt eI t) B eph t).1
-      (reliableSuffix lt ((Chan.fresh kA accA ra ka).onRekey lt eI t) B eph t).2 now p := by
+    Established lt (reliableSuffix lt ((Chan.fresh kA accA ra ka ht).onRekey lt eI t) B eph t).1
+      (reliableSuffix lt ((Chan.fresh kA accA ra ka ht).onRekey lt eI t) B eph t).2 now p := by
   subst hnow
-  rw [reliableSuffix_spec kA accA ra ka lt eI t eph B hB (by omega) (by omega) hacc]
-  exact established_spec kA accA ra ka lt eI t (eph + 1) B p hB hra hka hrb
+  rw [reliableSuffix_spec kA accA ra ka ht lt eI t eph B hB (by omega) (by omega) hacc]
+  exact established_spec kA accA ra ka ht lt eI t (eph + 1) B p hB hra hka hrb
 
-theorem establish_fresh (kA kB : KeyId) (ra ka : Nat) (lt : IdLt) (t0 : Nat) (p : Bytes) :
-    EstablishFresh kA kB ra ka lt t0 p := by
-  intro hra hka
+theorem establish_fresh (kA kB : KeyId) (ra ka ht : Nat) (lt : IdLt) (t0 : Nat) (p : Bytes) :
+    EstablishFresh kA kB ra ka ht lt t0 p := by
+  intro hra hka _hht
   simp only []
-  exact established_run kA (fun k => k == kB) ra ka lt 100 t0 102 _ p (t0 + 4) (RespPre.fresh kA kB ra ka 100 t0)
+  exact established_run kA (fun k => k == kB) ra ka ht lt 100 t0 102 _ p (t0 + 4) (RespPre.fresh kA kB ra ka ht 100 t0)
     (by omega) (by omega) (by show 3 ≤ ra; omega) (by simp [Chan.fresh]) rfl
 
 /-- (a) the responder after a completed exchange, facing a restarted initiator -/
-theorem RespPre.established (kA kB : KeyId) (ra ka t0 : Nat) :
-    RespPre (respDoneChan (Chan.fresh kB (fun k => k == kA) ra ka) kA 100 t0 103) kA 200 (t0 + 5) := by
+theorem RespPre.established (kA kB : KeyId) (ra ka ht t0 : Nat) :
+    RespPre (respDoneChan (Chan.fresh kB (fun k => k == kA) ra ka ht) kA 100 t0 103) kA 200 (t0 + 5) := by
   refine ⟨rfl, ?_, fun _ h => (by cases h), ?_, ?_⟩
   · intro se hse
     simp only [respDoneChan, Option.some.injEq] at hse
@@ -355,8 +374,8 @@ theorem RespPre.established (kA kB : KeyId) (ra ka t0 : Nat) :
   · simp [Chan.checkKey, respDoneChan]
 
 /-- (b) the responder that has only seen the first InitHello, facing a restarted initiator -/
-theorem RespPre.half (kA kB : KeyId) (ra ka t0 exp : Nat) :
-    RespPre { Chan.fresh kB (fun k => k == kA) ra ka with
+theorem RespPre.half (kA kB : KeyId) (ra ka ht t0 exp : Nat) :
+    RespPre { Chan.fresh kB (fun k => k == kA) ra ka ht with
       next := some ⟨.initHello 100 (helloOf kA t0), respS1 kB 102 exp 100 (helloOf kA t0)⟩ } kA 200 (t0 + 5) := by
   refine ⟨rfl, fun _ h => (by cases h), ?_, Nat.zero_le _, by simp [Chan.checkKey, Chan.fresh]⟩
   intro se hse
@@ -365,21 +384,21 @@ theorem RespPre.half (kA kB : KeyId) (ra ka t0 exp : Nat) :
   refine ⟨by simp, rfl, ?_⟩
   show t0 < t0 + 5; omega
 
-theorem establish_after_restart (kA kB : KeyId) (ra ka : Nat) (lt : IdLt) (t0 : Nat) (p : Bytes) :
-    EstablishAfterRestart kA kB ra ka lt t0 p := by
-  intro hra hka
+theorem establish_after_restart (kA kB : KeyId) (ra ka ht : Nat) (lt : IdLt) (t0 : Nat) (p : Bytes) :
+    EstablishAfterRestart kA kB ra ka ht lt t0 p := by
+  intro hra hka _hht
   simp only []
   constructor
-  · rw [reliableSuffix_spec kA (fun k => k == kB) ra ka lt 100 t0 102 _ (RespPre.fresh kA kB ra ka 100 t0)
+  · rw [reliableSuffix_spec kA (fun k => k == kB) ra ka ht lt 100 t0 102 _ (RespPre.fresh kA kB ra ka ht 100 t0)
       (by omega) (by show 1 ≤ ra; omega) (by simp [Chan.fresh])]
-    exact established_run kA (fun k => k == kB) ra ka lt 200 (t0 + 5) 202 _ p (t0 + 9)
-      (RespPre.established kA kB ra ka t0) (by omega) (by omega) (by show 3 ≤ ra; omega)
+    exact established_run kA (fun k => k == kB) ra ka ht lt 200 (t0 + 5) 202 _ p (t0 + 9)
+      (RespPre.established kA kB ra ka ht t0) (by omega) (by omega) (by show 3 ≤ ra; omega)
       (by simp [Chan.fresh, respDoneChan]) rfl
-  · rw [init_step0 kA _ ra ka lt 100 t0, init_onHandshake]
+  · rw [init_step0 kA _ ra ka ht lt 100 t0, init_onHandshakeAt]
     simp only [Chan.deliverAll, List.foldl, List.nil_append]
-    rw [resp_step1 _ lt kA 100 t0 102 (t0 + 1) (RespPre.fresh kA kB ra ka 100 t0)]
-    exact established_run kA (fun k => k == kB) ra ka lt 200 (t0 + 5) 202 _ p (t0 + 9)
-      (RespPre.half kA kB ra ka t0 (t0 + 1 + ra)) (by omega) (by omega) (by show 3 ≤ ra; omega)
+    rw [resp_step1 _ lt kA 100 t0 102 (t0 + 1) (RespPre.fresh kA kB ra ka ht 100 t0)]
+    exact established_run kA (fun k => k == kB) ra ka ht lt 200 (t0 + 5) 202 _ p (t0 + 9)
+      (RespPre.half kA kB ra ka ht t0 (t0 + 1 + ra)) (by omega) (by omega) (by show 3 ≤ ra; omega)
       (by simp [Chan.fresh]) rfl
 
 end P2PVerif.P2PKE
